@@ -3,7 +3,7 @@ from pv import common, gen
 
 RULE = ("generated DCOPs (1-6 variables, unary/binary/ternary tables with hard entries == infinity and soft entries, "
         "zero-ary constant constraints, variable cost dicts/functions incl. cost == infinity and costs at falsy values "
-        "0/''/False, external variables with values): DCOP.solution_cost on complete assignments == (count of terms equal "
+        "0/''/False, external variables with values; in half of the cases the same DCOP object is then edited - a variable replaced by another definition of the same name, or swapped for a new variable - and evaluated again): DCOP.solution_cost on complete assignments == (count of terms equal "
         "to infinity, sum of the others); every strict sub-assignment (also padded with a foreign key) must raise "
         "ValueError; assignment_cost with/without consider_variable_cost and with values passed through **kwargs == "
         "the defining sum; DCOP.add_agents with AgentDef / list / dict; non-trivial = >= 2 constraints and >= 1 hard "
@@ -162,6 +162,49 @@ def check_case(case, rng, R):
                 except Exception as e:
                     problems.append(("incomplete:%s:%s" % (vname, type(e).__name__),
                                      "solution_cost(%r) raised %s instead of ValueError: %s" % (a, type(e).__name__, e)))
+    # the accounting follows later edits of the same DCOP object: a variable replaced by another definition with the
+    # same name (other own costs), or one variable swapped for another one (the number of variables does not change)
+    if internal and rng.random() < 0.5:
+        import copy
+        from pydcop.dcop.objects import Domain, VariableWithCostDict, Variable
+
+        case2 = copy.deepcopy(case)
+        in_scope = set()
+        for c in case2["constraints"]:
+            in_scope.update(c["scope"])
+        free = [n for n in internal if n not in in_scope]
+        vm2 = gen.var_map(case2)
+        edit = rng.choice(["replace-costs", "swap"]) if free else "replace-costs"
+        if edit == "replace-costs":
+            n = rng.choice(internal)
+            v = vm2[n]
+            v["costs"] = [rng.choice([inf, rng.randint(0, 9), rng.randint(0, 9)]) for _ in v["domain"]]
+            dom = dcop.variables[n].domain
+            dcop.add_variable(VariableWithCostDict(n, dom, dict(zip(v["domain"], v["costs"]))))
+            internal2 = list(internal)
+        else:
+            n = rng.choice(free)
+            v = vm2[n]
+            new_name = "w_" + n
+            dcop.variables.pop(n)
+            v["name"] = new_name
+            v["costs"] = [rng.randint(0, 9) for _ in v["domain"]]
+            dcop.add_variable(VariableWithCostDict(new_name, Domain("d_" + new_name, "t", list(v["domain"])), dict(zip(v["domain"], v["costs"]))))
+            internal2 = [x for x in internal if x != n] + [new_name]
+        asgs2 = list(gen.assignments(case2, internal2))
+        rng.shuffle(asgs2)
+        for asg in asgs2[:3]:
+            want = expected(case2, asg)
+            try:
+                got = dcop.solution_cost(dict(asg), inf)
+            except Exception as e:
+                problems.append(("after-edit:%s:exception:%s" % (edit, type(e).__name__),
+                                 "after %s of %s, solution_cost(%r) raised %s: %s" % (edit, n, asg, type(e).__name__, e)))
+                continue
+            R.count("solution_cost_after_edit_checked")
+            if got[0] != want[0] or not gen.close(got[1], want[1]):
+                problems.append(("after-edit:%s:wrong" % edit, "after %s of %s, solution_cost(%r, infinity=%r) == %r, definition gives %r" % (
+                    edit, n, asg, inf, got, want)))
     return problems
 
 
